@@ -21,10 +21,12 @@ type Store interface {
 	// KeepsOrder reports whether lists keep insertion order (slices, RS) or are
 	// iterated in key order (Go maps).
 	KeepsOrder() bool
+	// ZeroIsUnset: the store cannot tell an unset leaf from one holding its Go zero value (plain struct fields).
+	ZeroIsUnset() bool
 }
 
 // StoreKinds lists the implemented stores.
-var StoreKinds = []string{"rs", "reflect-map", "reflect-slice", "node-map", "node-slice"}
+var StoreKinds = []string{"rs", "reflect-map", "reflect-slice", "node-map", "node-slice", "reflect-struct", "node-struct"}
 
 // NewStore builds a store of the given kind holding a copy of t.
 func NewStore(kind string, root *Node, t Tree) (Store, error) {
@@ -38,6 +40,8 @@ func NewStore(kind string, root *Node, t Tree) (Store, error) {
 			return nil, err
 		}
 		return &mapStore{kind: kind, root: root, data: nat.(map[string]interface{}), slices: slices}, nil
+	case "reflect-struct", "node-struct":
+		return newStructStore(kind, root, t)
 	}
 	return nil, fmt.Errorf("store kind %q", kind)
 }
@@ -51,6 +55,7 @@ func (s *rsStore) Kind() string             { return "rs" }
 func (s *rsStore) Node() node.Node          { return NewRS(s.root, s.data) }
 func (s *rsStore) Snapshot() (Tree, error)  { return CloneTree(s.data), nil }
 func (s *rsStore) KeepsOrder() bool         { return true }
+func (s *rsStore) ZeroIsUnset() bool        { return false }
 
 type mapStore struct {
 	kind   string
@@ -66,7 +71,8 @@ func (s *mapStore) Node() node.Node {
 	}
 	return nodeutil.ReflectChild(s.data)
 }
-func (s *mapStore) KeepsOrder() bool { return false }
+func (s *mapStore) KeepsOrder() bool  { return false }
+func (s *mapStore) ZeroIsUnset() bool { return false }
 func (s *mapStore) Snapshot() (Tree, error) {
 	return fromNativeContainer(s.root, reflect.ValueOf(s.data), "")
 }
